@@ -205,6 +205,15 @@ package handler
 //@   ensures [external-iff-launched-by-platform] (delta(RegisterExternal) == 1 ==> delta(ExtByNameFound) == 1) && (delta(RegisterInternal) == 1 ==> delta(ExtByNameFound) == 0)
 //@   loop range parseRegistrationFeatures(request): invariant delta(Render403) == 0 && delta(RegisterExternal) == 0 && delta(RegisterInternal) == 0 && delta(ExtByNameFound) == 0
 
+// C13 ("optional account id", for all feature headers): the header is a comma-separated list; each element is compared with
+// the allowed feature names after its own surrounding white space was removed ("x, accountId" asks for the account id)
+//@ event FeatureElementTrimmed = call strings.TrimSpace
+//@ event FeatureListSplit = ret strings.Split
+//@ func parseRegistrationFeatures
+//@   requires request != nil
+//@   ensures [C13: every-element-of-the-list-is-trimmed-on-its-own] delta(FeatureListSplit) == 1 && delta(FeatureElementTrimmed) == len(lastret(FeatureListSplit))
+//@   loop range rawFeatures: invariant [one-trim-per-element] delta(FeatureListSplit) == 1 && 0 <= rangeindex + 1 && rangeindex + 1 <= len(lastret(FeatureListSplit)) && delta(FeatureElementTrimmed) == rangeindex + 1 && (rangeindex >= 0 ==> lastarg(FeatureElementTrimmed, 0) == lastret(FeatureListSplit)[rangeindex])
+
 // C18: credentials are served only to a request bearing a stored token
 //@ event CredentialsLookedUp = call core.(CredentialsService).GetCredentials
 //@ event CredentialsSerialised = call encoding/json.Marshal
